@@ -220,6 +220,14 @@ impl Tokenizer
 					}
 					code += "REM"; // real Apple II would add trailing space, breaking symmetry with tokenizer
 					(escaped,addr) = super::bytes_to_escaped_string_ex(&img, addr+1, &self.config.detokenizer.escapes, &[EOL]);
+					// a blank at the very end would be trimmed away when the listing is read again
+					if let Some(last) = escaped.pop() {
+						if last.is_ascii_whitespace() || last=='\x0b' {
+							escaped += &format!("\\x{:02x}",last as u8 + 128);
+						} else {
+							escaped.push(last);
+						}
+					}
 					code += &escaped;
 				} else if img[addr]<128 {
 					if let Some(tok) = self.detok_map.get(&img[addr]) {
